@@ -16,4 +16,31 @@ def okIs (r : Res Bool) (b : Bool) : Bool :=
 def agree (lo hi : Nat) : Bool :=
   (List.range (hi - lo)).all fun i => okIs (isPrime (fun _ => 0) ((lo + i : Nat) : Int)) (tdB (lo + i))
 
+/-- trial division by the primes below 256: exact for `n < 65536` -/
+def tdC (n : Nat) : Bool :=
+  2 ≤ n && [2, 3, 5, 7, 11, 13, 17, 19, 23, 29, 31, 37, 41, 43, 47, 53, 59, 61, 67, 71, 73, 79, 83, 89, 97, 101, 103, 107, 109, 113, 127, 131, 137, 139, 149, 151, 157, 163, 167, 173, 179, 181, 191, 193, 197, 199, 211, 223, 227, 229, 233, 239, 241, 251].all fun d => n % d != 0 || n == d
+
+/-- `is_prime` with 40 rounds (`lg = 0`) agrees with trial division (primes below 256) on `[lo, hi)` -/
+def agreeC (lo hi : Nat) : Bool :=
+  (List.range (hi - lo)).all fun i => okIs (isPrime (fun _ => 0) ((lo + i : Nat) : Int)) (tdC (lo + i))
+
+/-- the statement a chunk establishes -/
+def GoodC (lo hi : Nat) : Prop := ∀ n : Nat, lo ≤ n → n < hi → isPrime (fun _ => 0) (n : Int) = .ok (tdC n)
+
+theorem goodC_of_agree {lo hi : Nat} (h : agreeC lo hi = true) : GoodC lo hi := by
+  intro n h1 h2
+  simp only [agreeC, List.all_eq_true, List.mem_range] at h
+  have := h (n - lo) (by omega)
+  rw [show lo + (n - lo) = n by omega] at this
+  unfold okIs at this
+  split at this
+  · rename_i v hv; rw [hv]; simp at this; rw [this]
+  · cases this
+
+theorem GoodC.trans {a b c : Nat} (h1 : GoodC a b) (h2 : GoodC b c) : GoodC a c := by
+  intro n hn1 hn2
+  by_cases h : n < b
+  · exact h1 n hn1 h
+  · exact h2 n (by omega) hn2
+
 end NTSmall
